@@ -768,6 +768,9 @@ def function_bodies(repo_root: str, header: str, names: list[str]) -> dict[str, 
         with open(f, "rb") as fh:
             h.update(os.path.relpath(f, librt).encode() + b"\0" + fh.read())
     h.update(("|".join(names) + header).encode())
+    if not header.endswith(".h"):
+        with open(path, "rb") as fh:  # a .c translation unit: its own text is part of the key
+            h.update(fh.read())
     h.update(_SELF_DIGEST)
     cpath = os.path.join(CACHE, "bodies_" + h.hexdigest() + ".json")
     if os.path.exists(cpath):
